@@ -36,9 +36,9 @@ PROPS = {
              "hash of the model state after a non-trivial mutating step, across hook configurations",
              [SIM_ALLOC, SIM_IN, SIM_BORROW], probes=["sorted", "patch_succeeded", "patch_built_through_constructors_with_lent_texts"]),
     "C04": P("asan", "exploration", (40000, 30), (2500000, 480),
-             "trees of every provenance (constructors, helpers, edits, parser, duplicate; depth up to 1000) are printed with Print, PrintUnformatted, PrintBuffered (prebuffer from {0,1,2,len-1,len,len+1,256,...}) and PrintPreallocated under both allocator configurations (default with realloc moving / shrinking in place; custom hooks without realloc); all byte streams must agree, parse back to an equal tree (numbers within 2^-52 relative, exact for integers below 1e15) and re-print byte-identically. Distinct by (tree hash, home allocator configuration); non-trivial when the tree is a container with a non-integer number or a string needing escapes/high bytes.",
+             "trees of every provenance (constructors, helpers, edits, parser, duplicate; depth up to 1000) are printed with Print, PrintUnformatted, PrintBuffered (prebuffer from {0,1,2,len-1,len,len+1,256,...}; in a sixth of the evaluations of texts up to 800 bytes EVERY prebuffer 0..length is tried) and PrintPreallocated under both allocator configurations (default with realloc moving / shrinking in place; custom hooks without realloc); all byte streams must agree, parse back to an equal tree (numbers within 2^-52 relative, exact for integers below 1e15) and re-print byte-identically. Distinct by (tree hash, home allocator configuration); non-trivial when the tree is a container with a non-integer number or a string needing escapes/high bytes.",
              "hash of (printed tree, allocator configuration) for non-trivial trees",
-             [SIM_ALLOC, SIM_IN, SIM_OUT], probes=["text_crosses_256", "deep_tree_built", "wide_tree_built"]),
+             [SIM_ALLOC, SIM_IN, SIM_OUT], probes=["text_crosses_256", "deep_tree_built", "wide_tree_built", "prebuffer_enumerated", "big_tree_built"]),
     "C05": P("asan", "exploration", (60000, 30), (2500000, 480),
              "trees with valid UTF-8 strings and possibly non-finite numbers are printed by all variants; an independent strict RFC 8259 reader must accept each text and decode it to the model value (non-finite -> null), the formatted text minus insignificant whitespace must equal the unformatted text, buffered/preallocated bytes must equal the plain ones, integer-valued numbers in int range must be plain decimal integers. Distinct by tree hash; non-trivial when the tree is a container printing to more than 20 bytes.",
              "hash of the printed tree for non-trivial trees",
@@ -58,11 +58,11 @@ PROPS = {
     "C17": P("asan", "exploration", (80000, 25), (2500000, 420),
              "pairs (from, to): independent documents or 'to' derived from 'from' by 1-6 edits, keys including / and ~; cJSONUtils_GeneratePatchesCaseSensitive must return an array of well-formed operations that, applied to a copy of 'from' by the library and to the model by the reference evaluator, yields 'to'; empty iff equal; both inputs must keep exactly their nodes (order free) and stay well-formed, and 3-15 follow-up edits on them are judged against the list/map model. Distinct by (patch text, from text) for non-empty patches.",
              "(generated patch, from-document) pairs with a non-empty patch",
-             [SIM_ALLOC, SIM_IN], probes=["generated_patch_applied_to_from_itself_then_again"]),
+             [SIM_ALLOC, SIM_IN], probes=["generated_patch_applied_to_from_itself_then_again", "document_rebuilt_through_constructors"]),
     "C18": P("asan", "exploration", (80000, 25), (2500000, 420),
              "(target, patch) pairs incl. non-object patches, null members at every depth, non-object targets and keys differing only in case: cJSONUtils_MergePatchCaseSensitive must equal the reference RFC 7396 merge (objects as sets) and leave the patch untouched; (from, to) pairs with 'to' free of null members: the generated merge patch applied by the library and by the reference must yield 'to' (NULL = no change); inputs keep their nodes and stay well-formed; follow-up edits are judged. Distinct by (target text, patch text) / (from text, to text).",
              "(target, patch) and (from, to) pairs with a non-trivial patch",
-             [SIM_ALLOC, SIM_IN], probes=["merge_null_member", "generated_merge_patch_applied_to_from_itself_then_again"]),
+             [SIM_ALLOC, SIM_IN], probes=["merge_null_member", "generated_merge_patch_applied_to_from_itself_then_again", "document_rebuilt_through_constructors"]),
     "C19": P("asan", "exploration", (120000, 25), (4000000, 420),
              "objects of 0-40 members with duplicate, case-variant, empty and high-byte keys are sorted (both variants); the result must be the same nodes in non-decreasing key order, a second sort must keep it (with all-distinct keys: the very same order), the structural walk must pass (in particular first->prev == last), printing must equal a freshly built twin, and every following append/insert/detach/replace/delete is judged against the list/map model. Distinct by model-state hash.",
              "hash of the model state after a non-trivial step (sort of >= 3 members or a judged mutation of a sorted object)",
